@@ -6,13 +6,14 @@ V = os.path.dirname(os.path.dirname(os.path.abspath(__file__)))
 pid, slug, caught = sys.argv[1], sys.argv[2], sys.argv[3]
 needs = " ".join(sys.argv[4:])
 src = os.environ.get("SEED_SRC", "/tmp/seed-out") + "/%s" % pid
-dst = os.path.join(V, "seeded", "%s-%s" % (pid, slug))
+base = pid[:3]  # a tag such as C07a names the property C07
+dst = os.path.join(V, "seeded", "%s-%s" % (base, slug))
 os.makedirs(dst, exist_ok=True)
 for f in os.listdir(src):
     if f.startswith(("patch", "demo", "notes")):
         shutil.copy(os.path.join(src, f), os.path.join(dst, f))
 meta = {
-    "property": pid,
+    "property": base,
     "origin": "independent sub-agent given only the property text and a scratch worktree of /repo (HEAD incl. fix commits)",
     "needs_to_manifest": needs,
     "confirmed": {
